@@ -420,6 +420,27 @@ pub fn spec_of_table(rng: &mut Rng, t: &Table) -> Spec {
         }
     }
     rng.shuffle(&mut calls);
+    // the builder API allows calling set_default_successor / mark_final repeatedly: the last default wins and
+    // marking twice is marking once. Insert earlier (overridden) defaults and repeated marks.
+    if rng.chance(1, 3) {
+        let defs: Vec<(usize, u32)> = calls.iter().enumerate().filter_map(|(i, c)| if let Call::Default(s, _) = c { Some((i, *s)) } else { None }).collect();
+        for (pos, s) in defs.into_iter().rev() {
+            if rng.chance(1, 2) {
+                // an earlier declaration with another target (often the target of one of the state's transitions)
+                let targets: Vec<u32> = calls.iter().filter_map(|c| if let Call::Trans(x, _, _, t) = c { if *x == s { Some(*t) } else { None } } else { None }).collect();
+                let tg = if !targets.is_empty() && rng.chance(2, 3) { *rng.pick(&targets) } else { *rng.pick(&lab) };
+                let at = rng.usize(pos + 1);
+                calls.insert(at, Call::Default(s, tg));
+            }
+        }
+        let fins: Vec<u32> = calls.iter().filter_map(|c| if let Call::Final(s) = c { Some(*s) } else { None }).collect();
+        for s in fins {
+            if rng.chance(1, 2) {
+                let at = rng.usize(calls.len() + 1);
+                calls.insert(at, Call::Final(s));
+            }
+        }
+    }
     // states that have neither transitions nor default nor finality would never be mentioned: they do not
     // exist for the builder either, which is fine (they are unreachable and absent)
     Spec { init: lab[0], calls }
